@@ -66,7 +66,7 @@ func fromMultihash(ctx context.Context, services coreiface.CoreAPI, hash cid.Cid
 	if options.Length != nil && *options.Length > -1 {
 		sorting.Sort(sortFn, entries, false)
 
-		entries = entrySlice(entries, -*options.Length)
+		entries = entryLastN(entries, *options.Length)
 	}
 
 	var heads []cid.Cid
@@ -118,7 +118,7 @@ func fromEntryHash(ctx context.Context, services coreiface.CoreAPI, hashes []cid
 	entries := all
 	if length > -1 {
 		sorting.Sort(sortFn, entries, false)
-		entries = entrySlice(all, -length)
+		entries = entryLastN(all, length)
 	}
 
 	return entries, nil
@@ -195,7 +195,7 @@ func fromEntry(ctx context.Context, services coreiface.CoreAPI, sourceEntries []
 	var sliced []iface.IPFSLogEntry
 
 	if length > -1 {
-		sliced = entrySlice(uniques, -length)
+		sliced = entryLastN(uniques, length)
 	} else {
 		sliced = uniques
 	}
@@ -207,6 +207,19 @@ func fromEntry(ctx context.Context, services coreiface.CoreAPI, sourceEntries []
 		ID:     result[len(result)-1].GetLogID(),
 		Values: result,
 	}, nil
+}
+
+// entryLastN returns the last n entries (all of them if there are fewer)
+func entryLastN(entries []iface.IPFSLogEntry, n int) []iface.IPFSLogEntry {
+	if n <= 0 {
+		return []iface.IPFSLogEntry{}
+	}
+
+	if n >= len(entries) {
+		return entries
+	}
+
+	return entries[len(entries)-n:]
 }
 
 func entrySlice(entries []iface.IPFSLogEntry, index int) []iface.IPFSLogEntry {
